@@ -42,6 +42,15 @@ type VerifC04Part struct {
 	Uses                 [][2]uint32      // symbol uses (links followed)
 }
 
+// one entry of JSRepr.Meta.ImportsToBind (plain copy)
+type VerifC04Binding struct {
+	ImportRef          [2]uint32   // the import item (links followed)
+	TargetSource       uint32      // importData.SourceIndex
+	TargetRef          [2]uint32   // importData.Ref (links followed)
+	ReExports          [][2]uint32 // importData.ReExports
+	LocalPartsWithUses []uint32    // AST.NamedImports[importRef].LocalPartsWithUses
+}
+
 type VerifC04File struct {
 	Repr            uint8 // 0 none/other, 1 JS, 2 CSS
 	Path            string
@@ -52,6 +61,9 @@ type VerifC04File struct {
 	CSSIndex        uint32
 	CSSImports      []uint32 // CSS repr: import records with a valid source index
 	Parts           []VerifC04Part
+	Bindings        []VerifC04Binding
+	Wrap            uint8 // graph.WrapKind
+	WrapperPart     int   // Meta.WrapperPartIndex, -1 when invalid
 }
 
 type VerifC04Dump struct {
@@ -86,6 +98,19 @@ func verifC04Dump(c *linkerContext, dump *VerifC04Dump) {
 			out.CSSIndexValid = repr.CSSSourceIndex.IsValid()
 			if out.CSSIndexValid {
 				out.CSSIndex = repr.CSSSourceIndex.GetIndex()
+			}
+			out.Wrap = uint8(repr.Meta.Wrap)
+			out.WrapperPart = -1
+			if repr.Meta.WrapperPartIndex.IsValid() {
+				out.WrapperPart = int(repr.Meta.WrapperPartIndex.GetIndex())
+			}
+			for importRef, importData := range repr.Meta.ImportsToBind {
+				b := VerifC04Binding{ImportRef: verifC04Ref(c, importRef), TargetSource: importData.SourceIndex, TargetRef: verifC04Ref(c, importData.Ref)}
+				for _, dep := range importData.ReExports {
+					b.ReExports = append(b.ReExports, [2]uint32{dep.SourceIndex, dep.PartIndex})
+				}
+				b.LocalPartsWithUses = append(b.LocalPartsWithUses, repr.AST.NamedImports[importRef].LocalPartsWithUses...)
+				out.Bindings = append(out.Bindings, b)
 			}
 			out.Parts = make([]VerifC04Part, len(repr.AST.Parts))
 			for j := range repr.AST.Parts {
